@@ -13,30 +13,46 @@ class C01(Check):
     required_theorems = ["streak_characterisation", "event_spec", "model_trace_meets_spec",
                          "pending_invariants", "stale_result_ignored", "nondecreasing_never_stale",
                          "host_projection", "host_projection_trace", "soft_implies_last_hard_ok", "dropped_only_if_older",
-                         "dropped_changes_nothing", "hard_state_bookkeeping", "run_eq_runCore", "streak_characterisation_run"]
-    technique = "Lean 4 proof (invariant by induction + refinement to the streak counter and to the reader's hard-state bookkeeping) over a hand-written model; correspondence by exhaustive + random differential execution of Checkable::ProcessCheckResult (directly, through ApiActions::ProcessCheckResult and through ExternalCommandProcessor)"
+                         "dropped_changes_nothing", "hard_state_bookkeeping", "run_eq_runCore", "streak_characterisation_run",
+                         "concurrent_pair_meets_spec", "concurrent_pair_step_meets_spec", "concurrent_nonok_order_irrelevant", "inv_determines",
+                         "overtaken_event_partial", "overtaken_event_counterexample", "overtaken_meets_spec_partial", "eventRead_own"]
+    technique = "Lean 4 proof (invariant by induction + refinement to the streak counter and to the reader's hard-state bookkeeping) over a hand-written model; correspondence by exhaustive + random differential execution of Checkable::ProcessCheckResult (directly, through ApiActions::ProcessCheckResult and through ExternalCommandProcessor; on objects with and without authority; two calls at once on two threads)"
     level_text = ("Machine-checked theorems (Lean 4 kernel) that for every configuration with max_check_attempts >= 1, every start state "
                   "(never-checked, any state of the shape the machine produces - then held to the whole property at once -, any other state a state "
                   "file may hold) and every finite result history with arbitrary timestamps the model's WHOLE trace (accepted and dropped results) "
                   "satisfies the executable specification: universal invariants, streak characterisation, event rule (volatile exemption only while "
                   "the object is soft after the result), last_hard_state = state of the result at the latest hard event and unchanged otherwise, "
                   "previous_hard_state = hard state before it, last_state, API-visible states = Up/Down projection, vars_after, dropped results "
-                  "strictly older and without effect; host traces depend on the results only through Up/Down (trace-level theorem). The model is tied to "
+                  "strictly older (by execution START) and without effect; host traces depend on the results only through Up/Down (trace-level theorem); after every "
+                  "history two further results processed one after the other satisfy the clause for CONCURRENT pairs (final state/type/attempt = streak after both, a "
+                  "hard event per result exactly where the rule demands it, in one of the two orders), and for two non-OK results the order is irrelevant. "
+                  "The emission site is modelled as written (hard branch from locals, soft branch re-reading the state type): a result whose report is overtaken by "
+                  "the next result satisfies the specification under the exact hypothesis of overtaken_event_partial; overtaken_event_counterexample is F-C01a "
+                  "(lost soft event / spurious soft event on the unchanged code, known finding). The model is tied to "
                   "the code by running the real ProcessCheckResult on all result sequences of length 5 (7 thorough) x kind x max 1..4 x volatile x "
                   "flapping from the pending state, all sequences of length 3 (4) from every start state (state x type x attempt 1..3 x last/previous "
                   "hard state), all sequences of length 4 (5) on objects whose parent (own host / Dependency, hard-only or soft-counting) goes down "
-                  "and up, plus random long histories with parent results, acknowledgements, downtimes, flag changes, equal/older/future timestamps, "
+                  "and up, all sequences of length 4 (5) on objects WITHOUT authority (paused; authority arriving/leaving in the middle), all sequences of length 3 (4) of "
+                  "(state, timing) with long-running checks and results whose execution starts inside the previous result's execution window, two results processed "
+                  "concurrently on two threads (the first held inside its update section, object lock taken, until the second has been started and sleeps) after seven "
+                  "prefixes x kind x max 1..3 (4) x volatile x 16 pairs, a result held in a subscriber of its OnNewCheckResult signal while the next one is processed (Y; 16 pairs after "
+                  "six prefixes x kind x max x volatile, one more result afterwards), plus random long histories with parent results, acknowledgements, downtimes, flag changes, equal/older/future timestamps, "
                   "passive results through the API action and the external command, and diffing every observation; the same specification predicate is evaluated on the "
                   "implementation's own trace")
     level_note = ("Trusted: Lean kernel (+ propext, Classical.choice, Quot.sound), the hand-written model's correspondence being sampled (exhaustive to the "
                   "stated lengths, random beyond), harness/driver. Environment (reachability, acknowledgement, downtime, flapping, enable_* flags) is driven "
                   "for real and has no place in the model: the property gives it no influence. Not modelled: notifications, scheduling, last_soft_states_raw, "
-                  "vars_before, concurrent ProcessCheckResult calls, cluster entry point (event::CheckResult), runtime change of max_check_attempts.")
+                  "vars_before, cluster entry point (event::CheckResult), runtime change of max_check_attempts. Concurrent calls: one forced interleaving per pair "
+                  "(second call started while the first holds the object lock in its first attribute write); only what is fixed under the object lock is observed "
+                  "(state, type, attempt, last hard state, hard events per result) - soft-vs-no event, vars_after and which result stays last_check_result are read "
+                  "outside the lock by the unchanged code and are not compared for pairs.")
     trusted_base = [
         "modelled, not verified: the attempt/state-type/hard-change/event computation of Checkable::ProcessCheckResult, last_hard_state_raw, the two-slot "
         "last_hard_states_raw word / previous_hard_state, last_state_raw, vars_after, Host/Service::GetState/GetLastState/GetLastHardState, the stale-result filter; "
         "flapping, reachability, acknowledgement, downtime, notifications, next-check scheduling are outside the model (the harness drives them to show they "
         "have no influence)",
+        "concurrent calls: the harness fixes ONE interleaving (second call entered while the first holds the object lock); other interleavings, and the fields the "
+        "unchanged code reads after releasing the lock (soft-vs-none event, vars_after, identity of last_check_result), are not covered",
         "start states other than the never-checked one are installed with the generated setters plus a last_check_result, as the state-file restore does; "
         "the restore code itself is not run",
     ]
@@ -59,6 +75,7 @@ class C01(Check):
         with open(f, "w") as fh:
             fh.write("\n".join(runner.strip_obs(l) for l in lines) + "\n")
         out = self._run([harness, "ops", f], driver, self.work("shrink.out"))
+        self._last_out = out
         return any(l.startswith(want_prefix) and want_sub in l for l in out)
 
     def _examine(self, res, lines, save, harness, driver):
@@ -76,13 +93,15 @@ class C01(Check):
                 hdr, ops = case[:1], case[1:]
                 want = "clause=" + kv["clause"]
                 fails = lambda ls: self._fails(harness, driver, ls, "SPECFAIL", want)
+                detail = {"driver": l}
                 if fails(hdr + ops):
                     ops = runner.ddmin(hdr, ops, fails)
                     fails(hdr + ops)
                     shown = open(self.work("shrink.out")).read().splitlines()
+                    detail["min_driver"] = [x for x in self._last_out if x.startswith("SPECFAIL")]
                 else:
                     shown = case
-                res.spec_failures.append(runner.Finding("spec", "spec:C01:" + kv["clause"], shown, {"driver": l}))
+                res.spec_failures.append(runner.Finding("spec", "spec:C01:" + kv["clause"], shown, detail))
         seen = set()
         tried = 0
         for l in lines:
@@ -133,22 +152,53 @@ class C01(Check):
                     f"{n - 2} results from every start state (4 states x soft/hard x attempt 1..3 x last hard state x previous hard state) x kind x "
                     f"max 1..3 x volatile; every sequence of {n - 1} results x kind x max 1..3 x volatile on an object whose parent (own host / "
                     "Dependency; hard-only or soft-counting) goes down before the first or second result and optionally up again "
-                    "(all distinct by construction); plus seeded random histories (max 1..12, length up to 200/1000, equal/older/future "
-                    "timestamps, active/passive/API action/external command, restored start states, parent results, acknowledgements, downtimes, flag changes). "
+                    "(all distinct by construction); every sequence of "
+                    f"{n - 1} results x kind x max 1..3 x volatile x stand-alone/below a parent on an object without authority (or getting/losing it half-way); every sequence of "
+                    f"{n - 2} (state, timing in 4 classes) pairs x kind x max 2..3 with execution windows that overlap the previous result's; 16 concurrent pairs after 7 prefixes "
+                    "x kind x max x volatile; plus seeded random histories (max 1..12, length up to 200/1000, equal/older/future "
+                    "timestamps, active/passive/API action/external command, restored start states, parent results, acknowledgements, downtimes, flag changes, authority changes, overlapping execution windows, a concurrent pair at the end). "
                     "evaluations = ProcessCheckResult calls; a case counts as non-trivial when it reached a hard problem state "
                     "(counted by the Lean driver)")
         res.samples = runner.extract_case(save, 1234) + ["..."] + runner.extract_case(save, stats["cases"])[:12]
         self._examine(res, lines, save, harness, driver)
         # the generator must really have reached the input classes the level text names (else a silent run proves little)
         if not res.spec_failures and not res.corr_failures:
-            for k in ("unreachable_soft", "acked", "in_downtime", "via_api", "via_extcmd", "starts_known", "prev_hard_checked", "dropped"):
+            for k in ("unreachable_soft", "acked", "in_downtime", "via_api", "via_extcmd", "starts_known", "prev_hard_checked", "dropped",
+                      "pairs_hard", "overlap", "paused_events", "overtaken_diff"):
                 if stats.get(k, 0) == 0:
                     raise core.TieBroken("driver:c01:coverage", f"generator never reached {k}: {stats}")
         return res
 
+    def matches_known(self, entry, finding):
+        """F-C01a only: the event of a result whose state-change report was overtaken by the next result (Y operation), both
+        accepted, where the two results left the object in DIFFERENT state types and the first one's report is exactly what
+        the late re-read of the state type explains: no event although it left the object soft (lost soft event), or a soft
+        event although it left the object hard (spurious).  A missing/extra HARD event, any other clause, any other line: reported."""
+        if entry.get("classifier") != "c01_overtaken_result_rereads_state_type" or finding.kind != "spec":
+            return False
+        if not finding.what.endswith(":state_change_event_of_overtaken_result"):
+            return False
+        mins = (finding.detail or {}).get("min_driver") or []
+        if len(mins) != 1:
+            return False
+        try:
+            ln = int(core.parse_kv(mins[0])["line"])
+            line = finding.case_lines[ln - 1]
+            if not line.startswith("Y ") or " | " not in line:
+                return False
+            a, rest = line.split(" | ", 1)[1].split(" ;; ", 1)
+            a = [int(x) for x in a.split()]
+            b = [int(x) for x in rest.split(" ; ")[0].split()]
+        except (KeyError, IndexError, ValueError):
+            return False
+        if len(a) != 13 or len(b) != 13 or a[0] != 1 or b[0] != 1:
+            return False
+        ty_a, ev_a, ty_b = a[2], a[5], b[2]
+        return ty_a != ty_b and ((ty_a == 0 and ev_a == 0) or (ty_a == 1 and ev_a == 1))
+
     def replay(self, path, harness, driver):
         data = json.load(open(path))
-        lines = [l for l in data.get("case", []) if l[:2] in ("C ", "R ", "S ", "P ", "A ", "D ", "F ")]
+        lines = [l for l in data.get("case", []) if l[:2] in ("C ", "R ", "S ", "P ", "A ", "D ", "F ", "U ", "X ", "Y ")]
         f = self.work("replay.ops")
         with open(f, "w") as fh:
             fh.write("\n".join(runner.strip_obs(l) for l in lines) + "\n")
